@@ -99,8 +99,17 @@ func (p c09) RunBatch(ctx *core.Ctx, batch int) {
 // c09Same compares the outcome of a base text and a variant. iff: the variant must also fail
 // when the base fails.
 func c09Same(ctx *core.Ctx, kind, base, variant string, iff bool) {
-	be, berr, ok1 := parse(ctx, base, "")
-	ve, verr, ok2 := parse(ctx, variant, "")
+	c09SameDF(ctx, kind, base, variant, iff, "")
+	// layout must not matter under a default field either (sampled for the token sequences,
+	// always for the tree variants)
+	if strings.HasPrefix(kind, "parens") || ctx.Index()%4 == 0 {
+		c09SameDF(ctx, kind+"+default-field", base, variant, iff, "dfl")
+	}
+}
+
+func c09SameDF(ctx *core.Ctx, kind, base, variant string, iff bool, df string) {
+	be, berr, ok1 := parse(ctx, base, df)
+	ve, verr, ok2 := parse(ctx, variant, df)
 	if !ok1 || !ok2 {
 		return
 	}
